@@ -71,7 +71,7 @@ def run_models(tier):
     def one(job):
         name, cfg, _ = job
         big = name.endswith("7x3")
-        return vlib.tlc("TaskManager", "mc_%s.cfg" % name, files={"mc_%s.cfg" % name: cfg}, workers=4 if big else 2, timeout=timeout,
+        return vlib.tlc("MCTaskManager", "mc_%s.cfg" % name, files={"mc_%s.cfg" % name: cfg}, workers=4 if big else 2, timeout=timeout,
                         heap="8g" if big else "2g")
     with concurrent.futures.ThreadPoolExecutor(max_workers=JVMS if tier == "quick" else 3) as ex:
         runs = list(ex.map(one, jobs))
